@@ -574,6 +574,54 @@ def _work(task):
     return label, vlabel, n, found
 
 
+PIPELINE_MEMBERS = ("ClearMetadataAndDocString", "IdentityElimination", "RemoveUnusedNodes", "TopologicalSort", "NameFix", "DeduplicateInitializers",
+                    "LiftConstantsToInitializers(all,0)", "RemoveInitializersFromInputs", "AddInitializersToInputs", "RemoveUnusedOpsets", "OutputFix")
+
+
+def _pipeline_work(label):
+    """Every functionalized pipeline built from the library's passes (single pass, Sequential / PassManager of two
+    members in every in-place/functionalized mix, three members led by the validating pass) leaves its input model's
+    full snapshot unchanged and returns another object."""
+    from mc.props import _passes as PS
+    from mc.props import c03
+
+    F = ir_passes.functionalize
+    found = {}
+    n = skipped = 0
+    mk = PS.PASS_INDEX
+    shapes = []
+    for a in PIPELINE_MEMBERS:
+        shapes.append((f"F({a})", lambda a=a: F(mk[a]())))
+        for b in PIPELINE_MEMBERS:
+            if a == b:
+                continue
+            for wl, wrap in (("Sequential", lambda ms: ir_passes.Sequential(*ms)), ("PassManager", lambda ms: ir_passes.PassManager(ms, steps=2))):
+                shapes.append((f"F({wl}({a},{b}))", lambda a=a, b=b, wrap=wrap: F(wrap([mk[a](), mk[b]()]))))
+                shapes.append((f"F({wl}(F({a}),{b}))", lambda a=a, b=b, wrap=wrap: F(wrap([F(mk[a]()), mk[b]()]))))
+                shapes.append((f"F({wl}({a},F({b})))", lambda a=a, b=b, wrap=wrap: F(wrap([mk[a](), F(mk[b]())]))))
+                shapes.append((f"F({wl}(Checker,{a},F({b})))", lambda a=a, b=b, wrap=wrap: F(wrap([mk["Checker"](), mk[a](), F(mk[b]())]))))
+                shapes.append((f"F({wl}(Checker,F({a}),{b}))", lambda a=a, b=b, wrap=wrap: F(wrap([mk["Checker"](), F(mk[a]()), mk[b]()]))))
+    for plabel, build in shapes:
+        model = build_source(label)
+        before = c03.full_snapshot(model)
+        try:
+            res = build()(model)
+        except Exception:  # noqa: BLE001  a member rejects this source (e.g. the checker): not this property's subject
+            skipped += 1
+            continue
+        n += 1
+        cls = plabel.split("(")[1] if plabel.count("(") > 1 else "single"
+        import re
+
+        shape_cls = re.sub(r"[A-Za-z]+(\([a-z,0-9]+\))?(?=[,)])", "p", plabel.replace("Checker", "CHK"))
+        if res.model is model:
+            found.setdefault(f"functionalize|functionalized_pipeline_returned_its_input|{shape_cls}", {"source": label, "variant": plabel, "clause": "functionalized_pipeline_returned_its_input", "detail": None})
+        if c03.full_snapshot(model) != before:
+            found.setdefault(f"functionalize|functionalized_pipeline_changed_its_input|{shape_cls}", {"source": label, "variant": plabel, "clause": "functionalized_pipeline_changed_its_input", "detail": None})
+        del cls
+    return label, n, skipped, found
+
+
 def main(tier):
     r = common.Run("C13", "model_checking", tier)
     tasks = []
@@ -592,14 +640,21 @@ def main(tier):
     for _, _, _, f in res:
         for k, v in f.items():
             found.setdefault(k, v)
+    pres = common.pmap(_pipeline_work, srcs, chunksize=1)
+    n_pipe = sum(x[1] for x in pres)
+    n_pipe_skipped = sum(x[2] for x in pres)
+    for _, _, _, f in pres:
+        for k, v in f.items():
+            found.setdefault(k, v)
     for key, f in sorted(found.items()):
         r.violation(key, f"{f['clause']} [{f['source']} / {f['variant']}]: {f['detail']}", {"engine": "E1", "input": {"source": f["source"], "variant": f["variant"]}, "oracle": f["clause"], "detail": f["detail"]})
     r.sample({"source": "if_with_captures@10", "variant": "Graph.clone(allow_outer)[then_g]", "edits": [e[0] for e in EDITS][:8]})
     r.sample({"source": "device_configurations@11", "variant": "Model.clone", "edit": "value.shape.set_denotation on every value of the clone, original snapshot compared"})
     r.coverage.update({
         "states": len(tasks), "transitions": total, "traces_validated_against_impl": total,
-        "evaluations": total, "distinct_nontrivial": len(tasks),
+        "evaluations": total + n_pipe, "distinct_nontrivial": len(tasks),
         "rule": "a state is (source model, clone variant); a transition is one edit of the catalogue applied at one object of one side with the other side's full snapshot compared before/after",
+        "functionalized_pipelines_run": n_pipe, "functionalized_pipelines_rejected_by_a_member": n_pipe_skipped,
         "exhaustive": True, "sources": srcs, "clone_variants": sorted({t[1].split('[')[0] for t in tasks}), "edit_catalogue": [e[0] for e in EDITS if e[0] not in TENSOR_EDITS],
     })
     r.assumptions += ["sources are topologically sorted first (the cloner documents this precondition)", "tensors and (for shallow clones) objects stored in meta may be shared by design; stored-object mutation is checked for deep_copy clones only",
